@@ -228,13 +228,13 @@ func TestSched(t *testing.T) {
 // ---------------------------------------------------------------- free-running (-race)
 
 type RaceCase struct {
-	Binary     bool  `json:"binary"`
-	Queue      int   `json:"queue"`
-	Goroutines []int `json:"goroutines"` // kind per goroutine: 0 counter 1 gauge 2 timer 3 shared histogram bucket handle 4 flush 5 allocate
-	Reports    int   `json:"reports"`
-	CloseAt    int   `json:"closeAt"`    // Close is called concurrently after this many microseconds (0 = at once)
-	KillSink   bool  `json:"killSink"`   // the destination goes away mid-run
-	KillFirst  bool  `json:"killFirst,omitempty"` // ... or is already gone when the first call is made (every send fails)
+	Binary     bool   `json:"binary"`
+	Queue      int    `json:"queue"`
+	Goroutines []int  `json:"goroutines"` // kind per goroutine: 0 counter 1 gauge 2 timer 3 shared histogram bucket handle 4 flush 5 allocate
+	Reports    int    `json:"reports"`
+	CloseAt    int    `json:"closeAt"`             // Close is called concurrently after this many microseconds (0 = at once)
+	KillSink   bool   `json:"killSink"`            // the destination goes away mid-run
+	KillFirst  bool   `json:"killFirst,omitempty"` // ... or is already gone when the first call is made (every send fails)
 	Seed       uint64 `json:"seed"`
 }
 
